@@ -105,6 +105,13 @@ func runC09(sc *SessScript) *sim.Outcome {
 					deliverAll()
 				}
 			}
+		case "cross":
+			// both sides send before either reads (messages cross on the wire), op.I+1 times
+			for i := 0; i <= op.I%3; i++ {
+				s.Send(0, s.Text(0, op.L%50, op.F))
+				s.Send(1, s.Text(1, op.L%50, op.F))
+				deliverAll()
+			}
 		case "burst":
 			// one-directional stream
 			for i := 0; i <= op.I%6; i++ {
@@ -201,13 +208,13 @@ func init() { reg("C09disclose", runC09) }
 
 func TestProp_C09_Disclosure(t *testing.T) {
 	defer sim.MarkCompleted("C09disclose", false)
-	kinds := []string{"pp", "pp", "pp", "burst", "burst", "send", "send", "dl", "dl", "dl", "refresh", "smp", "ans", "xk", "age", "flush"}
+	kinds := []string{"pp", "pp", "pp", "cross", "cross", "cross", "burst", "burst", "send", "send", "dl", "dl", "dl", "refresh", "smp", "ans", "xk", "age", "flush"}
 	rapid.Check(t, func(rt *rapid.T) {
 		sc := &SessScript{Cfg: genSessCfg(rt)}
 		n := rapid.IntRange(2, 30).Draw(rt, "nops")
 		for i := 0; i < n; i++ {
 			op := genSOp(rt, kinds, 300)
-			if op.K == "burst" {
+			if op.K == "burst" || op.K == "cross" {
 				op.I = rapid.IntRange(0, 5).Draw(rt, "bn")
 			}
 			sc.Ops = append(sc.Ops, op)
